@@ -87,7 +87,7 @@ Definition err_code_var (e : terr) : nat :=
   | EWeak | ENoDist | EInstArgs => 1
   | EClsNoArgs => 2
   | EBadType => 3
-  | ENoDefault | EDupName => 0
+  | ENoDefault | EDupName | EBadArgs => 0
   end%nat.
 
 Definition err_code_gb (e : terr) : nat :=
@@ -144,3 +144,32 @@ Definition agrees_c (c : ccase) : bool :=
   | inr l, Some obs => list_eqb var_eqb l obs
   | _, _ => false
   end.
+
+(* histories: calls on one variable (refused ones, then a successful one); observed: the variable's flags
+   after every call, the new variable of the last call, and whether the new variable's log-density is the
+   model's log_prior (it must be iff the new variable carries the parameter flag) *)
+Record hcase := mkH {
+  h_calls : list (bool * bkind);
+  h_var : var;
+  h_after : list var;                (* the variable after each call *)
+  h_new : option var;                (* new variable handed out by the last call *)
+  h_in_prior : bool                  (* Model.log_prior = log_prob of the new variable (else 0) *)
+}.
+
+Fixpoint states_s (ks : list (bool * bkind)) (v : var) : list var :=
+  match ks with
+  | [] => []
+  | (vp, k) :: rest =>
+      match attempt_s vp k v with
+      | (v1, None) => v1 :: states_s rest v1
+      | (v1, Some _) => [v1]
+      end
+  end.
+
+Definition agrees_h (c : hcase) : bool :=
+  list_eqb var_eqb (states_s (h_calls c) (h_var c)) (h_after c)
+  && match snd (history_s (h_calls c) (h_var c)), h_new c with
+     | Some tv, Some w => var_eqb tv w && Bool.eqb (v_parameter tv) (h_in_prior c)
+     | None, None => true
+     | _, _ => false
+     end.
